@@ -43,6 +43,7 @@ KIND = {
     "R01.12": "W",
     "R03.6": "W",
     "R14.8": "W",
+    "R14.9": "W",
     "R06.9": "T",
     "R07.11": "W",
     "R18.12": "S",
@@ -50,6 +51,7 @@ KIND = {
     "R13.4": "W",
     "R17.8": "W", "R17.9": "W",
     "R18.13": "W",
+    "R18.14": "W",
     "R01.13": "W",
     "SELF": "self-validation of the checker on single-edit variants of the current tree",
 }
